@@ -1166,9 +1166,7 @@ var guardAssertReviewed = map[string]string{
 	"(*runtime).cmplEvaluateNodeObjectLiteral:nodeProperty.value.(*nodeFunctionLiteral)": "property kinds get/set are built by the parser only with a FunctionLiteral value, which the compiler maps to *nodeFunctionLiteral",
 	"(*runtime).cmplEvaluateNodeStatement:load.(*nodeVariableExpression)":                "nodeVariableStatement.list is compiled from ast.VariableStatement.List, whose elements the parser builds as *ast.VariableExpression only",
 	"newError:load.(string)":                                                             "internal calling convention: the first variadic argument is the format string at every call site (checked by EXH-errname: format-first)",
-	"objectDefineOwnProperty:property.value.(Value)":                                     "reached only when both the property and the descriptor are data descriptors and descriptor.value != nil; toPropertyDescriptor rejects descriptors mixing accessors with value/writable and internal accessor descriptors leave the write bits unset",
-	"(*runtime).fromPropertyDescriptor:property.value.(Value)":                           "descriptor is an existing property returned by getOwnProperty; isDataDescriptor() and writeProperty's nil->Value{} normalisation make the payload a Value",
-	"(*runtime).fromPropertyDescriptor:property.value.(propertyGetSet)":                  "under isAccessorDescriptor(), which itself asserts the payload to propertyGetSet with comma-ok",
+	"objectDefineOwnProperty:property.value.(Value)":                                     "reached only when the existing property holds a Value and descriptor.isDataDescriptor() with descriptor.value != nil. Script descriptors: toPropertyDescriptor rejects an accessor combined with value/writable, so a data descriptor carries a Value. Internal callers that pass an accessor pair with the write bits set (caller, arguments, stack: mode 0o000) only define new properties on objects they have just created, never redefine an existing non-configurable, non-writable data property",
 	"(*runtime).convertCallParameter:call:Interface.(encoding.TextUnmarshaler)":          "guarded by reflect.PointerTo(t).Implements(TextUnmarshaler) on the line above",
 	"(*fnStash).clone:call:clone.(*dclStash)":                                            "(*dclStash).clone returns its *dclStash on every path",
 	"objectLength:Value.value.(uint32)":                                                  "class Array: length is always stored through uint32Value (LENGTH-repr)",
